@@ -15,6 +15,10 @@ import (
 
 func init() { registry["C13"] = c13Oracle }
 
+// passLeakAtoms: atoms that leave a tag / end tag / comment unfinished in one start context, break out
+// of a value in another, and black tags closed directly by '>' (state leaking between the passes of IsXSS)
+var passLeakAtoms = []string{"'>", "\">", "`>", "/>", ">", "</a x=", "</a ", "</i", "</>", "</a x='", "</a x=\"", "<script>", "<xss>", "<!--", "//-->", "'", "\"", " ", "x=", "<a "}
+
 var ctxEmbeds = []string{"", "<a ", "<a b='", "<a b=\"", "<a b=`"}
 
 // tokens the embed itself contributes before the injected text starts
@@ -112,7 +116,8 @@ func TestC13(t *testing.T) {
 
 	// inter-pass state: atoms that leave a tag / end tag / comment unfinished in one start context,
 	// break out of a value in another, and black tags closed directly by '>'
-	leak := []string{"'>", "\">", "`>", "/>", ">", "</a x=", "</a ", "</i", "</>", "</a x='", "</a x=\"", "<script>", "<xss>", "<!--", "//-->", "'", "\"", " ", "x=", "<a "}
+	leak := passLeakAtoms
+	_ = []string{"'>", "\">", "`>", "/>", ">", "</a x=", "</a ", "</i", "</>", "</a x='", "</a x=\"", "<script>", "<xss>", "<!--", "//-->", "'", "\"", " ", "x=", "<a "}
 	Ll := pick(5, 6)
 	p = c.rec.NewPart("pass_leak_atoms_exhaustive", fmt.Sprintf("contexts relation on every concatenation of 1..%d of %d atoms that end one pass in an unfinished construct and hide a black tag from the others", Ll, len(leak)), false, true, "")
 	c.EnumSeq(p, leak, "", 1, Ll, func(w *Worker, s string) { w.Judge(ctxCase(s)) })
